@@ -22,7 +22,7 @@ theorem unreduce_correct (k : Lane) (x0 x1 x2 x3 x4 x5 x6 x7 x8 x9 x10 x11 x12 x
     laneVal51 k (unreduce_fn x0 x1 x2 x3 x4 x5 x6 x7 x8 x9 x10 x11 x12 x13 x14 x15 x16 x17 x18 x19) = laneVal51 k (x0 :: x1 :: x2 :: x3 :: x4 :: x5 :: x6 :: x7 :: x8 :: x9 :: x10 :: x11 :: x12 :: x13 :: x14 :: x15 :: x16 :: x17 :: x18 :: x19 :: []) := by
   cases k <;> rfl
 
-/-- `negate_lazy`: `32p − x` lane-wise (`16p − x` before /repo commit c662d20) -/
+/-- `negate_lazy`: `32p − x` lane-wise (`16p − x` before /repo commit f67a738) -/
 theorem negate_lazy_correct (k : Lane) (x0 x1 x2 x3 x4 x5 x6 x7 x8 x9 x10 x11 x12 x13 x14 x15 x16 x17 x18 x19 : Int) :
     laneVal51 k (negate_lazy_fn x0 x1 x2 x3 x4 x5 x6 x7 x8 x9 x10 x11 x12 x13 x14 x15 x16 x17 x18 x19) = - laneVal51 k (x0 :: x1 :: x2 :: x3 :: x4 :: x5 :: x6 :: x7 :: x8 :: x9 :: x10 :: x11 :: x12 :: x13 :: x14 :: x15 :: x16 :: x17 :: x18 :: x19 :: []) := by
   ifma_lets negate_lazy_fn
